@@ -221,15 +221,17 @@ def run(rep, tier):
             "pc < n at the loop head (loop guard and 8 | len) and a wide load is never last", cites=("R05.f", "C06/R06.d")),
         Row("pc-scale", I, r"^Overflow\(Mul\)\(mut<usize>,8\)$", "D3",
             "pc <= n <= 1,000,000 because every control transfer lands inside the program", cites=("R05.f",)),
-        Row("jump-arith", I + r"::\{closure#\d+\}", r"^Overflow\(Add\)\(\(\*\*arg1<&mut \{closure\}>\.\d as isize\),\(\*\*arg1<&mut \{closure\}>\.\d as isize\)\)$", "D3",
+        # pc + displacement, written inline, in the jump closure, or in a small helper taking (pc, delta): the operands are
+        # the pc (a usize local / captured variable / first argument) and a sign-extended instruction field
+        Row("jump-arith", I + r"(::.*)?", r"^(precond:[\w:]+<-)?Overflow\(Add\)\(\(?(\*\*arg1<&mut \{closure\}>\.\d|arg1<usize>|mut<usize>)( as isize\))?,\(?(\*\*arg1<&mut \{closure\}>\.\d|arg2<isize>)( as isize\))?\)$", "D3",
             "pc <= 1,000,000 and |off| < 2^15: the signed sum cannot overflow", cites=("R05.f",)),
-        Row("call-arith", I, r"^Overflow\(Add\)\(\(mut<usize> as isize\),\(.*\.imm as isize\)\)$", "D3",
+        Row("call-arith", I + r"(::.*)?", r"^(precond:[\w:]+<-)?Overflow\(Add\)\(\(?(mut<usize>|arg1<usize>)( as isize\))?,\(?(.*\.(imm|off)|arg2<isize>)( as isize\))?\)$", "D3",
             "pc <= 1,000,000 and |imm| < 2^31", cites=("R05.f",)),
         Row("slice-end", r".", r"^Overflow\(Add\)\(\((\[T\]|slice\[T\]|Vec<T, A>)::as_ptr\((.*)\) as u64\),\((\[T\]|slice\[T\]|Vec<T, A>)::len\(\2\) as u64\)\)$", "A",
             "language guarantee: the end address of a live slice does not wrap"),
-        Row("packet-base", I, r"^Overflow\(Add\)\(\((\[T\]|slice\[T\])::as_ptr\(&\*arg\d<&\[u8\]>\) as u64\),\(\(.*\.imm as u32\) as u64\)\)$", "A",
+        Row("packet-base", I + r"(::.*)?", r"^(precond:[\w:]+<-)?Overflow\(Add\)\(\((\[T\]|slice\[T\])::as_ptr\(&\*arg\d<&\[u8\]>\) as u64\),\(\((.*\.imm|arg\d<i32>) as u32\) as u64\)\)$", "A",
             "assumption A-addr: slice addresses are below 2^63, so adding a 32-bit displacement cannot wrap"),
-        Row("frame-pointer", I, r"^Overflow\((Sub|Add)\)\((?:array|tmp|mut)<\[u64; 11\]>\[10\],\(StackUsageType::stack_usage", "A",
+        Row("frame-pointer", I, r"^Overflow\((Sub|Add)\)\((?:array|tmp|mut)<\[u64; 11\]>\[10\],[^,]*Stack(UsageType|Frame|Usage)::", "A",
             "assumption A-addr: r10 is not writable by verified programs (C06) and stays within 8 * 65535 bytes of the stack top"),
         Row("usage-present", I, r"^unwrap:Option<T>::unwrap\(arg2<Option<&stack::StackUsage>>\)$", "D3",
             "the stack-usage table is Some whenever the program is Some (paired writes, C10/R10.d)", cites=("C10/R10.d",)),
